@@ -36,5 +36,40 @@ UNIT = Unit(
                     }""")]),
         Fn(S, "root_hash", impl="CoinMapping", home="C07", implicit_props=("C09",),
            ensures=[C("root", "res == HashVal(novasmt::root_of(self.inner@))", "C07")]),
+        Fn(S, "inner", impl="CoinMapping", home="C20", implicit_props=("C09",), ensures=[C("is", "*res == self.inner", "C20")]),
+        Fn("src/state.rs", "apply_tip_906_for_next_state", impl="SealedState", wrap="impl<C: ContentAddrStore> CoinMapping<C>", home="C20", implicit_props=("C09", "C20"),
+           sig_subst=[("next_state: &mut UnsealedState<C>", "coins: &mut CoinMapping<C>")],
+           rewrites=[("FIELDPARAM", "next_state", "coins"), ("R8",)],
+           **st_tip906_transition(proj=True),
+           injects=[Inject(("after_let", "old_tree"), "let ghost raw0 = coins.inner@; let ghost c0 = coins@.coins;"),
+                    Inject(("after_let", "count"), """let __es = old_tree.iter(); let ghost es = __es@;
+                        proof { assert forall|i: int| 0 <= i < es.len() implies is_coin_key((#[trigger] es[i]).0@) by { assert(raw0[es[i].0@].len() > 0); }
+                            lemma_seen_finite(es, 0); assert(seen_upto(es, 0) =~= IMap::<CoinID, CoinDataHeight>::empty());
+                            assert forall|a: Address| cnt(seen_upto(es, 0), a) == 0 by { assert(coins_of(seen_upto(es, 0), a) =~= ISet::<CoinID>::empty()); } }"""),
+                    Inject("end", """proof { lemma_seen_finite(es, es.len() as int);
+                        assert(seen_upto(es, es.len() as int) =~= c0) by {
+                            broadcast use axiom_coin_key_inj;
+                            assert forall|id: CoinID| seen_upto(es, es.len() as int).contains_key(id) <==> c0.contains_key(id) by {
+                                if c0.contains_key(id) { assert(raw0[k_coin(id)].len() > 0); let i = choose|i: int| 0 <= i < es.len() && (#[trigger] es[i]).0@ == k_coin(id); }
+                                if seen_upto(es, es.len() as int).contains_key(id) { let i = choose|i: int| 0 <= i < es.len() && (#[trigger] es[i]).0@ == k_coin(id); assert(raw0[es[i].0@] == es[i].1@); } }
+                            assert forall|id: CoinID| c0.contains_key(id) implies seen_upto(es, es.len() as int)[id] == c0[id] by {
+                                let i = choose|i: int| 0 <= i < es.len() && (#[trigger] es[i]).0@ == k_coin(id); assert(raw0[es[i].0@] == es[i].1@); } } }""")],
+           body_subst=[("for (_, v) in old_tree.iter() {", "for (_k, v) in __es {")],
+           loops=[Loop(0, binder="it",
+               body_entry="""let ghost i = it.index@ as int; let ghost vpre = coins@;
+                   proof { assert(it.seq()[i] == (_k, v)); assert(es[i].1@ == v@); assert(raw0[es[i].0@] == v@); assert(is_coin_key(es[i].0@));
+                       let id = id_of_key(es[i].0@); assert(k_coin(id) == es[i].0@); assert(de_cdh(v@) is Some);
+                       lemma_seen_step(es, i); lemma_seen_finite(es, i);
+                       lemma_coins_of_finite(seen_upto(es, i), de_cdh(v@).unwrap().coin_data.covhash); }""",
+               body_exit="""proof { let d = de_cdh(v@).unwrap(); let a0 = d.coin_data.covhash; let id = id_of_key(es[i].0@);
+                   assert forall|a: Address| #[trigger] count_of(coins@.counts, a) == cnt(seen_upto(es, i + 1), a) by { lemma_cnt_insert_fresh(seen_upto(es, i), id, d, a); assert(count_of(vpre.counts, a) == cnt(seen_upto(es, i), a)); } }""",
+               invariants=[
+                   C("ctx", "it.seq() == es && es.len() <= usize::MAX && es.len() == count + it.index@ && raw_wf(raw0) && raw_only_coins(raw0) && c0 == raw_view(raw0).coins && old_tree@ == raw0", "C20"),
+                   C("entries", """(forall|q: int| 0 <= q < es.len() ==> (#[trigger] es[q]).1@.len() > 0 && raw0[es[q].0@] == es[q].1@ && is_coin_key(es[q].0@))
+                         && (forall|q: int, j: int| 0 <= q < j < es.len() ==> (#[trigger] es[q]).0@ != (#[trigger] es[j]).0@)
+                         && (forall|k: Seq<u8>| raw0[k].len() > 0 ==> exists|q: int| 0 <= q < es.len() && (#[trigger] es[q]).0@ == k)""", "C20"),
+                   C("coins_same", "coins.wf() && coins@.coins == c0", "C20"),
+                   C("hist", "(forall|a: Address| #[trigger] count_of(coins@.counts, a) == cnt(seen_upto(es, it.index@ as int), a)) && (forall|a: Address| #[trigger] coins@.counts.contains_key(a) ==> coins@.counts[a] >= 1)", "C20"),
+               ])]),
     ],
 )
